@@ -40,6 +40,9 @@ struct vp_regex { int id; };
 struct vp_typeinfo vp_typeid_obj;
 struct vp_stdexc vp_stdexc_obj;
 
+/* std::ios_base::fmtflags constants (libstdc++ values; only their distinctness matters) */
+int vpg_dec = 2, vpg_left = 32, vpg_hex = 8, vpg_oct = 64, vpg_right = 128, vpg_internal = 16, vpg_basefield = 74, vpg_adjustfield = 176;
+
 int vp_lock_depth;     /* ghost: recursion depth of the global recursive mutex */
 int vp_lock_max;
 
@@ -61,9 +64,12 @@ struct vp_event { int kind; const void *obj; int result; };
 #endif
 struct vp_event vp_ev[VP_EV_CAP]; int vp_ev_n;
 
-void *vp_malloc(unsigned long n);
+#include <stdlib.h>
+/* typed heap objects: CBMC types a dynamic object from the cast at the malloc call site */
+#define VP_NEW(T) ((T *)malloc(sizeof(T)))
 void vp_free(void *p);
 void vp_terminate(void);
+void vp_bad_dispatch(void);
 void vp_abort(void);
 struct vp_stdexc *vp_current_stdexc(void);
 #endif
